@@ -15,7 +15,7 @@ import numpy
 import z3
 
 from vc.shim import numpy_shimmed, patched
-from vc.sym import And, Or, Not, Implies, Sym, spec_mode
+from vc.sym import And, Or, Not, Implies, Sym, ite, spec_mode
 from . import meshkit as mk
 
 LEVEL = "proof"
@@ -150,6 +150,52 @@ def run_shift_torsion(ctx):
     return r
 
 
+def run_g1_g2_capped(ctx):
+    """geometry1 followed by geometry2 with cap_Bp_ylow_xpoint=True on the same region (real
+    methods, calcHy by its contract): dphidy = hy Btxy/(Bpxy Rxy) holds for the arrays the region
+    ends up with -- in particular for the y-face Bp that the cap has overwritten -- and the cap
+    only ever raises |..| entries next to the X-point to the documented minimum."""
+    from hypnotoad.core import mesh as M
+    from .C03 import run_geometry1
+
+    r = run_geometry1(ctx)
+    del ctx.obligations[:]  # geometry1's own post-conditions: C03
+    del ctx.safety[:]
+    r.user_options.cap_Bp_ylow_xpoint = True
+    xp = object()
+    r.equilibriumRegion.xPointsAtStart = [xp, None]
+    r.equilibriumRegion.xPointsAtEnd = [None, None]
+    nb = types.SimpleNamespace(Bpxy=mk.sym_mla(ctx, "Bp_lower_neighbour", ("centre",), r.nx, r.ny, shared=False))
+    r.connections = dict(r.connections, lower=7)
+    regs = dict(getattr(r.meshParent, "regions", {}) or {})
+    regs[7] = nb
+    r.meshParent.regions = regs
+    hy = mk.sym_mla(ctx, "hy", mk.LOCS4, r.nx, r.ny, shared=False)
+    for l in mk.LOCS4:
+        for v in getattr(hy, l).flat:
+            ctx.assume(v > 0)
+    r.calcHy = lambda: hy
+    # geometry precondition (as in C02): the poloidal field does not vanish at a grid point
+    for l in mk.LOCS4:
+        for v in getattr(r.Bpxy, l).flat:
+            ctx.assume(v != 0)
+    for v in nb.Bpxy.centre.flat:
+        ctx.assume(v != 0)
+    bp_before = numpy.array(r.Bpxy.ylow, dtype=object).copy()
+    M.MeshRegion.geometry2(r)
+    with spec_mode():
+        for l in mk.LOCS4:
+            G = lambda n: getattr(getattr(r, n), l)
+            for idx in numpy.ndindex(*G("dphidy").shape):
+                ctx.oblige(G("dphidy")[idx] * (G("Bpxy")[idx] * G("Rxy")[idx]) == hy.__getattribute__(l)[idx] * G("Btxy")[idx], "dphidy = hy Btxy/(Bpxy Rxy) with the FINAL Bpxy @%s%s" % (l, list(idx)))
+        m0, m1 = r.Bpxy.centre[0, 0], nb.Bpxy.centre[0, -1]
+        low = ite(m0 <= m1, m0, m1)
+        now = r.Bpxy.ylow
+        ctx.oblige(Or(now[0, 0] == bp_before[0, 0], And(bp_before[0, 0] < low, now[0, 0] == low)), "cap: the y-face Bp at the X-point is unchanged or raised to min(Bp of the two adjacent cell centres)")
+        ctx.oblige(And(*[now[i, j] == bp_before[i, j] for i in range(now.shape[0]) for j in range(1, now.shape[1])]), "cap touches only the faces at the X-point end")
+    return r
+
+
 def run_dx_defined(ctx):
     """definedness: after the real geometry1 every dx entry DDX divides by has been assigned
     (non-zero for strictly monotone psi_vals)."""
@@ -183,6 +229,7 @@ def build(S):
             for o in (False, True):
                 S.contract("DDX[inner=%s,outer=%s]" % (i, o), FN_DDX, make_ddx_run(i, o), shape="nx=2, ny=1")
         add_ddy(S)
+        S.contract("geometry1;geometry2[cap_Bp_ylow_xpoint]", "hypnotoad.core.mesh:MeshRegion.geometry2", run_g1_g2_capped, expected_exceptions=(ValueError,), raises_ok=g1_raises_ok, shape="nx=1, ny=3, X-point at the lower inner corner", max_paths=400)
         S.under_contract("hypnotoad.core.mesh:MeshRegion.calcMetric")
         S.contract("calcMetric[ShiftTorsion]", "hypnotoad.core.mesh:MeshRegion.calcMetric", run_shift_torsion, expected_exceptions=(ValueError,), shape="one point")
         from . import chainkit
